@@ -1,14 +1,15 @@
 """C06 — histogram fill puts every value into exactly the right cell and conserves weight.
 
 Real code: lena.structures.hist_functions (get_bin_on_value_1d, get_bin_on_value, check_edges_increasing,
-init_bins), lena.structures.histogram (__init__, fill), lena.structures.Histogram (__init__, fill).
-Model: lean/LenaModel/Model/C06.lean, theorems lean/LenaModel/Props/C06.lean.
+init_bins), lena.structures.histogram (__init__, fill), lena.structures.Histogram (__init__, fill, reset, compute).
+Model: lean/LenaModel/Model/C06.lean (+ C06Spec, C06Compute), theorems lean/LenaModel/Props/C06*.lean.
 
 Numbers: a case holds the real Python numbers (ints and floats; JSON round-trips both exactly).  For the model,
 edge values and coordinates are replaced by their rank among all numbers of the case (exact comparison through
 fractions.Fraction): the model is polymorphic in the ordered type and can only compare.  Weights and bin contents
 are integers or dyadic floats (multiples of 1/1024, far below 2**53) and are sent multiplied by 1024, so every
-sum is exact on both sides and results are compared with ==, never with a tolerance.
+sum is exact on both sides and results are compared with ==, never with a tolerance.  In the all-integer cases
+(case["big"]) contents and weights are Python integers of any size (exact on both sides as well).
 """
 import copy
 import hashlib
@@ -24,10 +25,10 @@ from harness.common import exc_name
 
 PID = "C06"
 TITLE = "Histogram fill puts every value into exactly the right cell and conserves weight"
-LEAN_MODULES = ["LenaModel.Props.C06", "LenaModel.Props.C06Ext", "LenaModel.Props.C06At"]
-LEAN_SOURCES = ["LenaModel/Model/C06.lean", "LenaModel/Model/C06Spec.lean", "LenaModel/Lemmas/C06.lean",
-                "LenaModel/Lemmas/C06Ext.lean", "LenaModel/Props/C06.lean", "LenaModel/Props/C06Ext.lean",
-                "LenaModel/Props/C06At.lean"]
+LEAN_MODULES = ["LenaModel.Props.C06", "LenaModel.Props.C06Ext", "LenaModel.Props.C06At", "LenaModel.Props.C06Compute"]
+LEAN_SOURCES = ["LenaModel/Model/C06.lean", "LenaModel/Model/C06Spec.lean", "LenaModel/Model/C06Compute.lean",
+                "LenaModel/Lemmas/C06.lean", "LenaModel/Lemmas/C06Ext.lean", "LenaModel/Props/C06.lean",
+                "LenaModel/Props/C06Ext.lean", "LenaModel/Props/C06At.lean", "LenaModel/Props/C06Compute.lean"]
 DRIVER = "drivers/C06.lean"
 THEOREMS = [
     # --- the carriers: every sentence of the property for EVERY interpolation guess (code after lena 4fbe73b)
@@ -45,6 +46,9 @@ THEOREMS = [
     "Lena.C06.weight_conserved_any",          # (5) structure
     "Lena.C06.elem_weight_conserved_any",     # (5) element Histogram(edges)
     "Lena.C06.histEl2_run_correct",           # (5) element with bins / make_bins / initial_value, re-used across resets
+    "Lena.C06.histEl2_run3_correct",          # (5) the same, the histogram observed by compute() anywhere in the history
+    "Lena.C06.run3_state_eq_run",             # compute() never changes the element's state (no hypothesis)
+    "Lena.C06.compute_after_fills",           # (5) what compute() yields after any flow of values
     "Lena.C06.checkEdgesIncreasing_ok",       # the precondition guard
     "Lena.C06.checkEdgesIncreasing_err",
     "Lena.C06.mkHist_valid",
@@ -92,6 +96,8 @@ AUX_THEOREMS = [
     "Lena.C06.elem_fill_exact_cell",          # one rewrite from the structure theorems
     "Lena.C06.elem_fill_out_of_range",
     "Lena.C06.histEl2_run_not_unmodelled",
+    "Lena.C06.run3_of_run",                   # a history without compute() is HistEl2.run (glue)
+    "Lena.C06.specYields_fills_compute",
     "Lena.C06.interpGuessN_okAt",
     "Lena.C06.roundedGuessN_okAt",
     "Lena.C06.fl8_roundingOK",                # a rounding that really rounds satisfies RoundingOK (non-vacuity)
@@ -99,7 +105,8 @@ AUX_THEOREMS = [
 TRUSTED = [
     "Lean 4.33.0 kernel; axioms limited to propext, Classical.choice, Quot.sound (audited by #print axioms on every run)",
     "hand transcription of get_bin_on_value_1d, get_bin_on_value, check_edges_increasing, init_bins (deepcopy True/False), "
-    "histogram.__init__/fill and Histogram.__init__/fill/reset into LenaModel/Model/C06.lean (plus NArr.lean), validated by "
+    "histogram.__init__/fill and Histogram.__init__/fill/reset into LenaModel/Model/C06.lean (plus NArr.lean) and of "
+    "Histogram.compute into LenaModel/Model/C06Compute.lean (it yields the wrapped histogram and reads only), validated by "
     "this correspondence check (sampled, not exhaustive); the three container tests of the code (hasattr __iter__ in "
     "check_edges_increasing, histogram.__init__ and - since e6c6bab - init_bins) are ONE flat/nested switch in the model",
     "the float interpolation guess is a parameter of the model.  Since lena 4fbe73b the theorems that carry the property "
@@ -120,10 +127,14 @@ ASSUMPTIONS = [
     "edge containers: lists, tuples and ranges (flat or nested, outer list or tuple) are generated; other iterables "
     "(numpy arrays, generators) are not; the model is container-agnostic",
     "dimensions: the theorems hold for any number of axes; the generator produces 1-4",
-    "axis lengths: theorems unbounded; the generator produces 2..12 edges per axis in histogram cases and up to 400 in "
-    "1-d search cases (the search is linear in the worst case)",
+    "axis lengths: theorems unbounded; the generator produces 2..12 edges per axis in histogram cases (in 5 % of them "
+    "one axis of 13..400 edges) and up to 400 in 1-d search cases (the search is linear in the worst case)",
     "weights and bin contents are ints or dyadic floats whose sums are exact (rounding in sums of arbitrary floats is "
-    "outside the model); theorems hold for any commutative monoid of weights",
+    "outside the model); theorems hold for any commutative monoid of weights.  Integers of any size belong to it: "
+    "Python adds them exactly, so in a histogram whose initial contents and weights are all integers the exact "
+    "cell / n_out_of_range values and the exact conservation are demanded beyond 2**53 too (about 12 % of the cases; "
+    "adversary candidates 1 and 7 - an accumulator that is a float from the start - are judged property-breaking: the "
+    "statement quantifies over all weights and says 'equals')",
     "aliasing is outside the value model and outside the statement of C06 (it is C04's subject): sub-lists of "
     "user-supplied bins are not aliased; the caller does not keep using the `bins` list it hands over (histogram(edges, "
     "bins) and Histogram(edges, bins) adopt the object itself for the first epoch - observed on /repo: two elements built "
@@ -134,8 +145,12 @@ ASSUMPTIONS = [
     "user-supplied bins whose inner shape does not match the edges are outside the property: such cases are generated, "
     "but the correspondence stops at the first fill on which model and implementation part (a refactoring may turn "
     "'IndexError counted as out of range' into a raised IndexError there)",
-    "for the element only the final state of a history is judged by the oracle (per-fill deltas are judged on the "
-    "structure); the state is read from Histogram._hist / _cur_context (fallback: compute())",
+    "for the element the histogram is observed the public way, by list(compute()), at the end of a history and wherever "
+    "the history calls compute() (per-fill deltas are judged on the structure).  compute() must yield exactly one "
+    "(histogram, context) pair holding the initial content plus everything filled since the last reset(): a compute() "
+    "that takes content away (adversary candidate 4) breaks 'always equals the total filled weight ... for the element'. "
+    "What else compute() does (contexts, independence of the yielded objects) is C04/C09's subject and is not judged",
+    "the edges attribute is compared as numbers (a rewrite that stores tuples as lists is not a change of the edges)",
 ]
 RULE = ("a lazy stream of interleaved cases: (bin1d) one edge array (2..12 edges; families: uniform ints/floats, random "
         "ints/floats, magnitudes 1e-300..1e300 with random exponents, one huge outlier next to small values, chains of "
@@ -150,9 +165,11 @@ RULE = ("a lazy stream of interleaved cases: (bin1d) one edge array (2..12 edges
         "edges/bins/coordinate forms, bins as a bare number) filled with a sequence of such coordinates and integer/dyadic "
         "weights of both signs, observed after every fill (index list, changed cells, n_out_of_range) and compared with the "
         "specification-side interpreter (specFillAll, cellOf?, InCell, indices, total, sumW, WF, ValidEdges, Proper, "
-        "guessesOKAtB); (elem) the same through the Histogram element with and without contexts; (elem2) one element "
-        "object created with bins / make_bins / initial_value (and both: LenaTypeError), re-used across reset()s, finally "
-        "reset() against a new element; (initbins) init_bins with deepcopy True/False and check_edges_increasing called "
+        "guessesOKAtB); in 12 % of the histogram cases all contents and weights are integers, many beyond 2**53 (exact on "
+        "the real code as well); in 5 % one axis has 13..400 edges; (elem) the same through the Histogram element with and "
+        "without contexts, observed by compute(); (elem2) one element object created with bins / make_bins / "
+        "initial_value (and both: LenaTypeError), re-used across reset()s and compute()s in any order (HistEl2.run3: "
+        "everything yielded is compared and judged), finally reset() against a new element; (initbins) init_bins with deepcopy True/False and check_edges_increasing called "
         "directly, on valid and degenerate edges. quick: 1500 cases, about 55 k filled points per seed; thorough: 50000 "
         "lighter cases, about 1 M points. Non-trivial: at least one value landed in a cell and at least one search needed "
         "an interpolation guess, or an exception was raised.")
@@ -350,6 +367,13 @@ def build_edges(case):
 
 
 WEIGHTS = [1, 1, 1, 2, 3, 5, -1, -2, 0, 7, 10 ** 9, 0.5, 0.25, 1.5, -0.5, 2.0, 3 / 1024, 1000.125]
+# "all weights": Python sums integers exactly whatever their size, so in a histogram whose contents and weights are all
+# integers every sum is exact on the real code too - also far beyond 2**53, where a float accumulator is not
+# (adversary candidates C06/1, C06/7: n_out_of_range = 0., cell += float(weight))
+BIG_WEIGHTS = [1, 1, 2, 3, -1, 0, 2 ** 53, 2 ** 53 + 1, 2 ** 53 - 1, -(2 ** 53) - 1, 2 ** 63, 2 ** 64 + 1, 10 ** 17 + 1,
+               10 ** 30 + 7, -(10 ** 25) - 3, 3 * 2 ** 52 + 1]
+BIG_CONTENTS = [0, 0, 1, 2, 5, -1, 2 ** 53, 2 ** 53 + 1, -(2 ** 60) - 1, 10 ** 20 + 1]
+LONG_FAMILIES = ("outlier", "outlier", "wild", "rand_int", "uni_float", "uni_int", "bigint")
 
 
 def gen_bin1d_case(rng, tier):
@@ -408,15 +432,26 @@ def _dims_for(rng, tier):
 def gen_hist_case(rng, tier, elem=False):
     dim = _dims_for(rng, tier)
     cap = {1: 12, 2: 12, 3: 6, 4: 4}[dim]
+    # one axis longer than any internal constant could be (the search of a histogram is the search of get_bin_on_value,
+    # which bin1d cases do not reach; adversary candidate C06/3)
+    long_k = rng.randrange(dim) if (dim <= 3 and rng.random() < 0.05) else None
+    # everything an integer (contents and weights), some of them far beyond 2**53
+    big = rng.random() < (0.12 if not elem else 0.1)
     axes, fams = [], []
-    for _ in range(dim):
+    for k in range(dim):
         fam = rng.choice(FAMILIES)
         n = rng.randint(2, cap)
         if dim == 3 and rng.random() < 0.1:
             n = rng.randint(2, 12)
+        if long_k is not None:
+            if k == long_k:
+                fam = rng.choice(LONG_FAMILIES)
+                n = rng.randint(13, 40) if rng.random() < 0.35 else rng.randint(41, 400)
+            else:
+                n = rng.randint(2, 3)
         axes.append(gen_axis(rng, n, fam))
         fams.append(fam)
-    if dim == 3:
+    if dim == 3 and long_k is None:
         # keep the number of cells moderate
         while (len(axes[0]) - 1) * (len(axes[1]) - 1) * (len(axes[2]) - 1) > 400:
             k = max(range(3), key=lambda i: len(axes[i]))
@@ -425,16 +460,20 @@ def gen_hist_case(rng, tier, elem=False):
     edges = axes[0] if flat else axes
     case = {"op": "elem" if elem else "hist", "edges": edges, "fam": "+".join(fams),
             "axes_as": [_pick_kind(rng, a) for a in axes], "edges_as": "tuple" if rng.random() < 0.15 else "list",
-            "full": dim <= 2 and rng.random() < 0.15}
+            "full": dim <= 2 and long_k is None and rng.random() < 0.15}
+    if big:
+        case["big"] = True
+    if long_k is not None:
+        case["long"] = long_k
     # initial content
     r = rng.random()
     shape = [len(a) - 1 for a in axes]
     case["init"] = 0
     case["bins"] = None
     if r < 0.12:
-        case["init"] = rng.choice([7, -3, 2.5, 0.0])
+        case["init"] = rng.choice([7, -3, 2.5, 0.0]) if not big else rng.choice([7, -3, 2 ** 53, 10 ** 20 + 1])
     elif r < 0.24:
-        case["bins"] = _rand_bins(rng, shape)
+        case["bins"] = _rand_bins(rng, shape, big)
     # malformed configurations (correspondence only)
     bad = None
     r = rng.random()
@@ -466,17 +505,17 @@ def gen_hist_case(rng, tier, elem=False):
         bad = "bins"
         kind = rng.random()
         if kind < 0.3:
-            case["bins"] = _rand_bins(rng, [shape[0] + rng.choice([-1, 1])] + shape[1:]) if shape[0] > 0 else [0]
+            case["bins"] = _rand_bins(rng, [shape[0] + rng.choice([-1, 1])] + shape[1:], big) if shape[0] > 0 else [0]
         elif kind < 0.5:
-            case["bins"] = _rand_bins(rng, shape + [2])          # too deep
+            case["bins"] = _rand_bins(rng, shape + [2], big)          # too deep
         elif kind < 0.7 and dim > 1:
-            case["bins"] = _rand_bins(rng, shape[:-1])             # too shallow
+            case["bins"] = _rand_bins(rng, shape[:-1], big)             # too shallow
         elif kind < 0.85 and dim > 1:
             s2 = list(shape)
             s2[-1] = max(0, s2[-1] - 1)
-            case["bins"] = _rand_bins(rng, s2)                     # inner axis too short
+            case["bins"] = _rand_bins(rng, s2, big)                     # inner axis too short
         elif kind < 0.93:
-            case["bins"] = _rand_bins(rng, [0] if (dim == 1 and not flat) else shape)
+            case["bins"] = _rand_bins(rng, [0] if (dim == 1 and not flat) else shape, big)
         else:
             case["bins"] = 5                                       # a bare number: len(bins) is a TypeError
     case["bad"] = bad
@@ -527,17 +566,17 @@ def gen_hist_case(rng, tier, elem=False):
         if elem:
             f["ctx"] = rng.randint(0, 9) if rng.random() < 0.5 else None
         else:
-            f["w"] = rng.choice(WEIGHTS)
+            f["w"] = rng.choice(BIG_WEIGHTS if big else WEIGHTS)
             f["dflt"] = f["w"] == 1 and rng.random() < 0.5     # call fill(coord) without the weight argument
         fills.append(f)
     case["fills"] = fills
     return case
 
 
-def _rand_bins(rng, shape):
+def _rand_bins(rng, shape, big=False):
     if not shape:
-        return rng.choice([0, 0, 1, 2, 5, -1, 0.5])
-    return [_rand_bins(rng, shape[1:]) for _ in range(shape[0])]
+        return rng.choice(BIG_CONTENTS if big else [0, 0, 1, 2, 5, -1, 0.5])
+    return [_rand_bins(rng, shape[1:], big) for _ in range(shape[0])]
 
 
 def gen_elem2_case(rng, tier):
@@ -546,33 +585,47 @@ def gen_elem2_case(rng, tier):
     case["op"] = "elem2"
     axes = _valid_axes(case["edges"])
     case["mk"] = None
+    big = bool(case.get("big"))
     if axes is not None and case.get("bad") is None:
         shape = [len(a) - 1 for a in axes]
         r = rng.random()
         case["bins"], case["init"] = None, 0
         if r < 0.25:
-            case["init"] = rng.choice([0, 0, 7, -3, 2.5])
+            case["init"] = rng.choice([0, 0, 7, -3, 2.5]) if not big else rng.choice([0, 7, -3, 2 ** 53, 10 ** 20 + 1])
         elif r < 0.5:
-            case["bins"] = _rand_bins(rng, shape)
+            case["bins"] = _rand_bins(rng, shape, big)
         elif r < 0.8:
-            case["mk"] = _rand_bins(rng, shape)
+            case["mk"] = _rand_bins(rng, shape, big)
             if rng.random() < 0.3:
                 case["init"] = 5               # ignored when make_bins is given
         elif r < 0.86:
-            case["bins"], case["mk"] = _rand_bins(rng, shape), _rand_bins(rng, shape)     # LenaTypeError
+            case["bins"], case["mk"] = _rand_bins(rng, shape, big), _rand_bins(rng, shape, big)     # LenaTypeError
         elif r < 0.93:
-            case["mk"] = _rand_bins(rng, [shape[0] + 1] + shape[1:])                      # make_bins of a wrong shape
+            case["mk"] = _rand_bins(rng, [shape[0] + 1] + shape[1:], big)                 # make_bins of a wrong shape
         else:
-            case["bins"] = _rand_bins(rng, shape[:-1] + [shape[-1] + 1]) if len(shape) > 1 else _rand_bins(rng, shape + [2])
-    # resets: before some fills, and after the last one
+            case["bins"] = (_rand_bins(rng, shape[:-1] + [shape[-1] + 1], big) if len(shape) > 1
+                            else _rand_bins(rng, shape + [2], big))
+    # resets and computes: before some fills, and after the last one.  f["pre"] / case["post"] are strings of
+    # 'r' (reset()) and 'c' (list(compute())) in the order of the calls
     fills = case["fills"]
     k = rng.choice([0, 1, 1, 2, 2, 3])
-    for _ in range(k):
+    nc = rng.choice([0, 0, 1, 1, 2, 3])
+    for ch in rng.sample(["r"] * k + ["c"] * nc, k + nc):
         if fills:
             f = fills[rng.randrange(len(fills))]
-            f["rb"] = f.get("rb", 0) + 1
-    case["ra"] = rng.choice([0, 0, 0, 1, 2])
+            f["pre"] = f.get("pre", "") + ch
+    case["post"] = rng.choice(["", "", "", "r", "rr", "c", "c", "cc", "cr", "rc"])
     return case
+
+
+def _pre(f):
+    """the calls made before a fill of an element history: 'r' = reset(), 'c' = list(compute())
+    (cases written before the adversary round only have the number of resets, f['rb'])"""
+    return f["pre"] if "pre" in f else "r" * f.get("rb", 0)
+
+
+def _post(case):
+    return case["post"] if "post" in case else "r" * case.get("ra", 0)
 
 
 def gen_initbins_case(rng, tier):
@@ -634,6 +687,27 @@ def _coord(c):
     return tuple(c["t"]) if c.get("tuple") else list(c["t"])
 
 
+def _plain(e):
+    """the numbers of an edges object as nested lists (the statement speaks of values: containers are not compared)"""
+    if isinstance(e, (list, tuple, range)):
+        return [_plain(x) for x in e]
+    return e
+
+
+def _el_yield(el):
+    """the public observation of a Histogram element: what list(el.compute()) yields, taken down at once (the histogram
+    object may be filled further afterwards).  {"n_yield": ..} if it is not exactly one (histogram, context) pair"""
+    ys = list(el.compute())
+    if len(ys) != 1:
+        return {"n_yield": len(ys)}
+    y = ys[0]
+    if not (isinstance(y, tuple) and len(y) == 2):
+        return {"n_yield": "not-a-pair"}
+    h, cx = y
+    return {"bins": _sc_nested(h.bins), "oor": _scaled(h.n_out_of_range),
+            "ctx": cx.get("k") if isinstance(cx, dict) else "not-a-dict", "edges": _plain(h.edges)}
+
+
 def run_impl(case):
     import lena.structures as ls
     from lena.structures import hist_functions as hf
@@ -693,7 +767,7 @@ def run_impl(case):
             res["steps"].append(step)
         res["bins"] = _sc_nested(h.bins)
         res["oor"] = _scaled(h.n_out_of_range)
-        res["edges_same"] = h.edges == edges0 and type(h.edges) is type(edges0)
+        res["edges_same"] = _plain(h.edges) == _plain(edges0)
         return res
     if op == "elem":
         try:
@@ -714,17 +788,15 @@ def run_impl(case):
                     el.fill(c)
         except Exception as e:
             return {"e": exc_name(e), "phase": "fill"}
-        # the state that Histogram.fill maintains is read directly (compute() belongs to C04/C09); if the private
-        # attributes are renamed, fall back to what compute() yields
-        h, cx = getattr(el, "_hist", None), getattr(el, "_cur_context", None)
-        if h is None or cx is None:
-            ys = list(el.compute())
-            if len(ys) != 1:
-                return {"n_yield": len(ys)}
-            h, cx = ys[0]
-        return {"bins": _sc_nested(h.bins), "oor": _scaled(h.n_out_of_range),
-                "ctx": cx.get("k") if isinstance(cx, dict) else "not-a-dict",
-                "edges_same": h.edges == edges0}
+        # the element's histogram is observed the public way: by compute() (what else compute() does - contexts,
+        # independence of the yielded objects - belongs to C04/C09)
+        try:
+            y = _el_yield(el)
+        except Exception as e:
+            return {"e": exc_name(e), "phase": "compute"}
+        if "n_yield" in y:
+            return y
+        return {"bins": y["bins"], "oor": y["oor"], "ctx": y["ctx"], "edges_same": y["edges"] == _plain(edges0)}
     if op == "initbins":
         try:
             b = hf.init_bins(build_edges(case), case["init"], deepcopy=case["deep"])
@@ -753,36 +825,41 @@ def run_impl(case):
             el = ls.Histogram(edges, **kwargs())
         except Exception as e:
             return {"e": exc_name(e), "phase": "init"}
+        ys = []
+
+        def call(ch):
+            if ch == "r":
+                el.reset()
+            else:
+                ys.append(_el_yield(el))
         try:
             for f in case["fills"]:
-                for _ in range(f.get("rb", 0)):
-                    el.reset()
+                for ch in _pre(f):
+                    call(ch)
                 c = _coord(f["c"])
                 if f.get("ctx") is not None:
                     el.fill((c, {"k": f["ctx"]}))
                 else:
                     el.fill(c)
-            for _ in range(case.get("ra", 0)):
-                el.reset()
+            for ch in _post(case):
+                call(ch)
+            # the final state, observed the public way
+            y = _el_yield(el)
         except Exception as e:
             return {"e": exc_name(e), "phase": "run"}
-        h, cx = getattr(el, "_hist", None), getattr(el, "_cur_context", None)
-        if h is None or cx is None:
-            ys = list(el.compute())
-            if len(ys) != 1:
-                return {"n_yield": len(ys)}
-            h, cx = ys[0]
-        res = {"bins": _sc_nested(h.bins), "oor": _scaled(h.n_out_of_range),
-               "ctx": cx.get("k") if isinstance(cx, dict) else "not-a-dict",
-               "edges_same": h.edges == edges0}
+        for z in ys + [y]:
+            if "n_yield" in z:
+                return z
+        e0 = _plain(edges0)
+        res = {"bins": y["bins"], "oor": y["oor"], "ctx": y["ctx"],
+               "edges_same": all(z["edges"] == e0 for z in ys + [y]),
+               "ys": [{"bins": z["bins"], "oor": z["oor"], "ctx": z["ctx"]} for z in ys]}
         # reset() of the used element against a newly constructed one
         try:
             el.reset()
-            h2 = getattr(el, "_hist", None) or list(el.compute())[0][0]
-            new = ls.Histogram(build_edges(case), **kwargs())
-            hn = getattr(new, "_hist", None) or list(new.compute())[0][0]
-            res["fresh"] = (_sc_nested(h2.bins) == _sc_nested(hn.bins)
-                            and _scaled(h2.n_out_of_range) == _scaled(hn.n_out_of_range))
+            a = _el_yield(el)
+            b = _el_yield(ls.Histogram(build_edges(case), **kwargs()))
+            res["fresh"] = "n_yield" not in a and a["bins"] == b.get("bins") and a["oor"] == b.get("oor")
         except Exception as e:
             res["fresh"] = {"e": exc_name(e)}
         return res
@@ -1011,7 +1088,7 @@ def model_requests(case):
         else:
             it["ctx"] = f.get("ctx")
         if op == "elem2":
-            items.extend({"reset": True} for _ in range(f.get("rb", 0)))
+            items.extend({"reset": True} if ch == "r" else {"compute": True} for ch in _pre(f))
         items.append(it)
     if op == "hist":
         req["fills"] = items
@@ -1019,7 +1096,7 @@ def model_requests(case):
         req["vals"] = items
         req["one"] = SCALE
     else:
-        items.extend({"reset": True} for _ in range(case.get("ra", 0)))
+        items.extend({"reset": True} if ch == "r" else {"compute": True} for ch in _post(case))
         req["ops"] = items
         req["one"] = SCALE
         req["mk"] = _mbins(case["mk"])
@@ -1154,6 +1231,19 @@ def compare(case, res, replies):
         tot = _total(res["bins"]) + (_num(res["oor"]) or 0)
         if m["tot"] != tot or m["ssum"] != tot:
             return f"total / specSum: model {m['tot']} / {m['ssum']}, sum over the real bins + n_out_of_range {tot}"
+        # the history with its compute() calls (HistEl2.run3): everything yielded, the final state, specYields
+        ys = res.get("ys", [])
+        if m.get("ys") != ys:
+            k = next((i for i, (a, b) in enumerate(zip(ys, m["ys"])) if a != b), min(len(ys), len(m["ys"]))) \
+                if isinstance(m.get("ys"), list) else 0
+            return (f"compute() #{k}: impl yielded {_short(ys[k]) if k < len(ys) else None} vs model "
+                    f"{_short(m['ys'][k]) if isinstance(m.get('ys'), list) and k < len(m['ys']) else _short(m.get('ys'))}")
+        for k, k3 in (("bins", "bins3"), ("oor", "oor3"), ("ctx", "ctx3")):
+            if res[k] != m[k3]:
+                return f"final {k} after the history with its compute() calls: impl {res[k]} vs model (run3) {m[k3]}"
+        sy = [_total(y["bins"]) + (_num(y["oor"]) or 0) for y in ys]
+        if m["syields"] != sy:
+            return f"specYields: model {m['syields']}, sums over the yielded histograms {sy}"
         return None
     raise ValueError(op)
 
@@ -1392,10 +1482,44 @@ def oracle(case, res):
         content0 = copy.deepcopy(ref)
         n = 0
         hist = []
+        start = (f"bins={case['bins']!r}" if case["bins"] is not None else
+                 f"make_bins -> {case['mk']!r}" if case["mk"] is not None else f"initial_value={case['init']!r}")
+        yields = iter(res.get("ys", []))
+
+        def judge(got, what):
+            """the histogram the element holds (as compute() shows it) against the initial content plus the values filled
+            since the last reset()"""
+            if got["bins"] != ref or got["oor"] != ref_oor:
+                return (f"Histogram(edges={case['edges']!r}, {start}) after {', '.join(hist)}: {what} bins / n_out_of_range "
+                        f"{_unsc_nested(got['bins'])} / {_unsc(got['oor'])}, but the initial content plus the values filled "
+                        f"since the last reset is {_unsc_nested(ref)} / {_unsc(ref_oor)} "
+                        f"(first difference at {_first_diff(got['bins'], ref)})")
+            s_, o = _total(got["bins"]), _num(got["oor"])
+            if o is None or s_ + o != _total(content0) + n * SCALE:
+                return (f"element after {', '.join(hist)}: sum of bins + n_out_of_range = {(s_ + (o or 0)) / SCALE}, "
+                        f"{n} values since the last reset")
+            return None
+
+        def calls(chs):
+            nonlocal ref, ref_oor, n
+            for ch in chs:
+                if ch == "r":
+                    ref, ref_oor, n = copy.deepcopy(content0), 0, 0
+                    hist.append("reset()")
+                else:
+                    hist.append("compute()")
+                    got = next(yields, None)
+                    if got is None:
+                        return f"after {', '.join(hist)}: nothing observed"
+                    bad = judge(got, "compute() yields")
+                    if bad:
+                        return bad
+            return None
+
         for f in case["fills"]:
-            if f.get("rb", 0):
-                ref, ref_oor, n = copy.deepcopy(content0), 0, 0
-                hist.append("reset()" if f["rb"] == 1 else f"reset() x{f['rb']}")
+            bad = calls(_pre(f))
+            if bad:
+                return bad
             xs = proper(f)
             hist.append(f"fill({xs!r})" if len(xs) > 1 else f"fill({xs[0]!r})")
             cell = _cell_of(xs, axes)
@@ -1404,19 +1528,9 @@ def oracle(case, res):
             else:
                 _get(ref, cell[:-1])[cell[-1]] = _get(ref, cell) + SCALE
             n += 1
-        if case.get("ra", 0):
-            ref, ref_oor, n = copy.deepcopy(content0), 0, 0
-            hist.append("reset()" if case["ra"] == 1 else f"reset() x{case['ra']}")
-        if res["bins"] != ref or res["oor"] != ref_oor:
-            start = (f"bins={case['bins']!r}" if case["bins"] is not None else
-                     f"make_bins -> {case['mk']!r}" if case["mk"] is not None else f"initial_value={case['init']!r}")
-            return (f"Histogram(edges={case['edges']!r}, {start}) after {', '.join(hist)}: bins / n_out_of_range "
-                    f"{_unsc_nested(res['bins'])} / {_unsc(res['oor'])}, but the initial content plus the values filled "
-                    f"since the last reset is {_unsc_nested(ref)} / {_unsc(ref_oor)} "
-                    f"(first difference at {_first_diff(res['bins'], ref)})")
-        s_, o = _total(res["bins"]), _num(res["oor"])
-        if o is None or s_ + o != _total(content0) + n * SCALE:
-            return f"element: sum of bins + n_out_of_range = {(s_ + (o or 0)) / SCALE}, {n} values since the last reset"
+        bad = calls(_post(case)) or judge(res, "finally")
+        if bad:
+            return bad
         if not res.get("edges_same", True):
             return f"edges changed by filling: {case['edges']!r}"
         return None
@@ -1553,10 +1667,15 @@ def classify(case, res):
         labs.add("init:" + ("bins+make_bins" if case["bins"] is not None and case["mk"] is not None else
                             "bins" if case["bins"] is not None else "make_bins" if case["mk"] is not None else
                             "initial_value" if case["init"] != 0 else "default"))
-        nres = sum(f.get("rb", 0) for f in case["fills"]) + case.get("ra", 0)
-        labs.add(f"resets:{min(nres, 3)}")
+        calls = "".join(_pre(f) for f in case["fills"]) + _post(case)
+        labs.add(f"resets:{min(calls.count('r'), 3)}")
+        labs.add(f"computes:{min(calls.count('c'), 3)}")
     else:
         labs.add("init:" + ("bins" if case["bins"] is not None else "initial_value" if case["init"] != 0 else "default"))
+    if case.get("big"):
+        labs.add("integers-beyond-2**53")
+    if case.get("long") is not None:
+        labs.add("hist-axis:13-400-edges")
     if "e" in res:
         labs.add(f"error:{res.get('phase')}:{res['e']}")
     if case.get("bad"):
@@ -1614,8 +1733,15 @@ def shrink(case):
     fs = case["fills"]
     for sub in _sublists(fs):
         yield dict(case, fills=sub)
-    if op == "elem2" and case.get("ra", 0) > 0:
-        yield dict(case, ra=case["ra"] - 1)
+    if op == "elem2":
+        post = _post(case)
+        for i in range(len(post)):
+            yield dict(case, post=post[:i] + post[i + 1:])
+        if len(fs) <= 6:
+            for i, f in enumerate(fs):
+                pre = _pre(f)
+                for j in range(len(pre)):
+                    yield dict(case, fills=fs[:i] + [dict(f, pre=pre[:j] + pre[j + 1:])] + fs[i + 1:])
     if case.get("bins") is not None and _valid_axes(case["edges"]) is not None:
         yield dict(case, bins=None, init=0)
     if op == "hist" and len(fs) <= 3:
@@ -1626,16 +1752,17 @@ def shrink(case):
 
 # ---- MANIFEST texts ------------------------------------------------------------------------
 LEVEL_TEXT = ("Lean 4 theorems about a transcribed model of get_bin_on_value_1d / get_bin_on_value / histogram.__init__/fill / "
-              "check_edges_increasing / init_bins / Histogram.__init__/fill/reset: for all strictly increasing edge arrays in "
+              "check_edges_increasing / init_bins / Histogram.__init__/fill/reset/compute: for all strictly increasing edge arrays in "
               "any number of dimensions, all coordinates of a linear order, all weights of a commutative monoid, any number of "
               "fills and resets, and EVERY value of the interpolation guess (no hypothesis on floating-point arithmetic, "
               "code after lena 4fbe73b): index = #edges <= value - 1, the weight goes to exactly the cell containing the "
               "coordinate or to n_out_of_range, nothing else changes, sum of bins + n_out_of_range = total weight for the "
               "structure and the element.  The model is tied to /repo by a sampled correspondence check (1-4 dimensions, "
-              "2..12 edges per axis, searches up to 400 edges, list/tuple/range containers, float neighbours of every "
-              "edge, +-inf, magnitudes 1e-300..1e300, dense big integers) plus a direct oracle on the real code (count of "
-              "edges <= value, exactly-one-cell delta, exact conservation).  NaN coordinates, non-dyadic float weight "
-              "sums and aliasing between objects are outside.")
+              "2..12 edges per axis and single axes up to 400, searches up to 400 edges, list/tuple/range containers, float "
+              "neighbours of every edge, +-inf, magnitudes 1e-300..1e300, dense big integers, integer weights and contents "
+              "beyond 2**53, element histories of fill / reset / compute) plus a direct oracle on the real code (count of "
+              "edges <= value, exactly-one-cell delta, exact conservation, every histogram compute() yields).  NaN "
+              "coordinates, non-dyadic float weight sums and aliasing between objects are outside.")
 LEVEL_NOTE = ("Trusted: Lean kernel (+ propext, Classical.choice, Quot.sound), the hand transcription validated by the sampled "
               "correspondence run (not exhaustive), exact instead of floating-point weight sums, the JSON protocol.  The float "
               "interpolation guess is no longer trusted for correctness (every-guess theorems); its values are observed "
